@@ -155,6 +155,14 @@ func NewEffects(P *Program, S *Specs) *Effects {
 			}
 		}
 	}
+	// ghost updates performed at return
+	for _, f := range P.AllFuncs {
+		if ct := S.Contracts[fnName(f)]; ct != nil {
+			for _, gu := range ct.ReturnGhost {
+				E.Mods[f]["G:"+gu.Field] = true
+			}
+		}
+	}
 	// propagate through calls to a fixpoint
 	changed := true
 	for changed {
